@@ -6,7 +6,7 @@ tvars == <<vars, l>>
 Ev(name) == l <= Len(T) /\ T[l].e = name /\ l' = l + 1
 R == T[l]
 TReset == Ev("Reset") /\ nchecked' = 0
-TRT == Ev("RT") /\ RoundTrip(R.orig, R.back, R.err, R.toodeep)
+TRT == Ev("RT") /\ RoundTrip(R.orig, R.back, R.err, R.toodeep, R.wf = 1)
 TRTO == Ev("RTO") /\ ObjectRoundTrip(R.orig, R.back, R.err, R.static_kept = 1, R.obref_kept = 1)
 TDmg == Ev("Damaged") /\ Damaged(R.outcome)
 TraceNext == TReset \/ TRT \/ TRTO \/ TDmg
